@@ -895,3 +895,50 @@ Section WriterFacts.
     intros d d' M C t Hw Hr Hs [R [ew [S0 [cs [Hl [Hsn H]]]]]].
     exists R, ew, S0, cs. unfold LogShape, SnapShape in *. rewrite Hw, Hr, Hs. auto.
   Qed.
+
+  (* ---- every crash cut of one logged write (record append, then rotation if due) *)
+  Lemma DInvG_DInv : forall d M C t, DInvG d M C t -> DInv d M C.
+  Proof. intros d M C t H. exists t. exact H. Qed.
+
+  Lemma append_any_cut : forall d M C e y b, DInvG d M C [] -> d_wal d = Some y -> genuine e -> C < e_txid e ->
+    let d' := exec d (cut [AAppend FWal (frame (ser e))] 0 b) in
+    DInv d' M C \/ d' = exec1 d (AAppend FWal (frame (ser e))).
+  Proof.
+    intros d M C e y b HI Hy Hg Hlt. cbn [cut firstn nth_error app].
+    destruct b as [|b]; [left; cbn; eapply DInvG_DInv; exact HI|].
+    destruct (Nat.ltb (S b) (length (frame (ser e)))) eqn:E.
+    - apply Nat.ltb_lt in E. left. cbn [exec fold_left]. eapply DInvG_DInv.
+      apply (step_append_cut d M C e y (S b) HI Hy). lia.
+    - apply Nat.ltb_ge in E. right. cbn [exec fold_left]. rewrite firstn_all2 by exact E. reflexivity.
+  Qed.
+
+  Lemma write_cuts : forall d w M C e y rot a b, DInvG d M C [] -> d_wal d = Some y -> genuine e -> C < e_txid e ->
+    let d' := exec d (cut (fst (write_actions ser d w e rot)) a b) in
+    DInv d' M C \/ DInv d' (apply_changes M (eff e)) (e_txid e).
+  Proof.
+    intros d w M C e y rot a b HI Hy Hg Hlt. unfold write_actions.
+    pose proof (step_append_full d M C e y HI Hy Hg Hlt) as Hfull.
+    set (d1 := exec1 d (AAppend FWal (frame (ser e)))) in *.
+    assert (Hy1 : exists y1, d_wal d1 = Some y1) by (subst d1; cbn [exec1 read write d_wal]; eexists; reflexivity).
+    destruct Hy1 as [y1 Hy1].
+    assert (Hns : next_seq d1 = next_seq d) by (subst d1; unfold next_seq; cbn [exec1 read write d_rot]; reflexivity).
+    destruct (rot && ((WAL_MAX_SIZE <=? w_size w + len (frame (ser e))) || (WAL_MAX_ENTRIES <=? w_count w + 1))); cbn [fst].
+    - destruct a as [|[|[|a]]].
+      + destruct (append_any_cut d M C e y b HI Hy Hg Hlt) as [H | H].
+        * left. exact H.
+        * right. cbn [cut firstn nth_error app] in *. rewrite H. eapply DInvG_DInv. exact Hfull.
+      + right. cbn [cut firstn nth_error app exec fold_left]. eapply DInvG_DInv. exact Hfull.
+      + right. cbn [cut firstn nth_error app exec fold_left]. fold d1. rewrite <- Hns.
+        eapply DInvG_DInv. apply (step_rotate_rename d1 _ _ y1 Hfull Hy1).
+      + right. replace (cut _ (S (S (S a))) b) with [AAppend FWal (frame (ser e)); ARename FWal (FRot (next_seq d)); ACreate FWal]
+          by (unfold cut; destruct a; reflexivity).
+        cbn [exec fold_left]. fold d1. rewrite <- Hns.
+        destruct (step_rotate_rename d1 _ _ y1 Hfull Hy1) as [H2 Hn2].
+        eapply DInvG_DInv. apply (step_create_wal _ _ _ H2 Hn2).
+    - destruct a as [|a].
+      + destruct (append_any_cut d M C e y b HI Hy Hg Hlt) as [H | H].
+        * left. exact H.
+        * right. cbn [cut firstn nth_error app] in *. rewrite H. eapply DInvG_DInv. exact Hfull.
+      + right. replace (cut _ (S a) b) with [AAppend FWal (frame (ser e))] by (unfold cut; destruct a; reflexivity).
+        cbn [exec fold_left]. eapply DInvG_DInv. exact Hfull.
+  Qed.
